@@ -434,6 +434,77 @@ theorem mfi_bound (hT : legalThreshold T = true) (d : Nat) : maxThr T + slack T 
 theorem MQ.size_lt (hT : legalThreshold T = true) {d : Nat} {t : MTree r d} (h : MQ T D d t) :
     (MTree.hdr d t).size < 2^32 := Nat.lt_of_le_of_lt h.size_le (mfi_bound hT d)
 
+theorem mfi_rootFlag_false : ∀ (d : Nat) (t : MTree r d), MTreeInv T D d false t → mds_rootFlag d t = false
+  | 0, _, h => ((mtreeInv_zero_iff T D _ _).mp h).root_eq
+  | _ + 1, _, h => ((mtreeInv_succ_iff T D _ _ _).mp h).1.1
+
+theorem mfi_inl_false : ∀ (d : Nat) (t : MTree r d), MTreeInv T D d false t → treeInl d t = false
+  | 0, s, h => by
+    show MDataSlab.inlined s = false
+    cases hi : MDataSlab.inlined s with
+    | false => rfl
+    | true => have := ((mtreeInv_zero_iff T D _ _).mp h).inl_root hi; cases this
+  | _ + 1, _, _ => rfl
+
+theorem mfi_headD_lt (l : List Nat) (h : ∀ x ∈ l, x < 2^64) : l.headD 0 < 2^64 := by
+  cases l with
+  | nil => decide
+  | cons a l => exact h a List.mem_cons_self
+
+/-- `mds_PathG` (tight children, loose leaf) from the tree invariant, the `uint64` range of the digests, the owner
+    address of the root, `P` of the leaves -/
+theorem mfi_path (hT : legalThreshold T = true) (hc : CfgFor cfg T (r + 1)) {k : MKey} (hk : KeyOk T (r + 1) D k)
+    {v : Elem} (hv : ValueOkM v) (hhk : k.dig 0 < 2^64) (P : DG r → Prop) :
+    ∀ (d : Nat) (top : Bool) (t : MTree r d) (c : Ctx), MTreeInv T D d top t →
+      (∀ x ∈ MTree.digests0 d t, x < 2^64) → (MTree.hdr d t).id.addr = cfg.addr → treeInl d t = false →
+      (∀ sl ∈ MTree.leaves d t, P sl.elems) →
+      mds_PathG cfg k v P (mfi_L T D) (mfi_Qin T D) d t c
+  | 0, top, s, c, h, _, haddr, hinl, hP =>
+    ⟨hP s (List.mem_singleton.mpr rfl), haddr, hinl, ⟨top, ((mtreeInv_zero_iff T D _ _).mp h).loose⟩⟩
+  | d + 1, top, (m : MMetaSlab (MTree r d)), c, h, hdig, haddr, _, hP => by
+    obtain ⟨hm, h2, hle⟩ := MTreeInv.two_children hT h
+    have hroute := route hT hm (by omega) (k.dig 0)
+    have hidx : (MMetaSlab.findChild m.childHdrs (k.dig 0) 0 m.childHdrs.length (some 0) (m.childHdrs.length + 1)).getD 0
+        = (MMetaSlab.findChild m.childHdrs (k.dig 0) 0 m.childHdrs.length none (m.childHdrs.length + 1)).getD 0 := by
+      rw [MMetaSlab.findChild_some0]; rfl
+    obtain ⟨i, A, child, B, hi, hrt⟩ : ∃ i A child B,
+        (MMetaSlab.findChild m.childHdrs (k.dig 0) 0 m.childHdrs.length none (m.childHdrs.length + 1)).getD 0 = i ∧
+        Routed d m (k.dig 0) i A child B := by
+      cases hr : MMetaSlab.findChild m.childHdrs (k.dig 0) 0 m.childHdrs.length none (m.childHdrs.length + 1) with
+      | none =>
+        rw [hr] at hroute
+        obtain ⟨_, child, B, hrt⟩ := hroute
+        exact ⟨0, [], child, B, rfl, hrt⟩
+      | some i =>
+        rw [hr] at hroute
+        obtain ⟨A, child, B, hrt, _⟩ := hroute
+        exact ⟨i, A, child, B, rfl, hrt⟩
+    have hci : m.children[mds_idx m.childHdrs (k.dig 0)]? = some child := by
+      unfold mds_idx
+      rw [hidx, hi, hrt.ch]; exact zip_get' hrt.len
+    have hmem : child ∈ m.children := List.mem_of_getElem? hci
+    have hsubd : ∀ (c' : MTree r d), c' ∈ m.children → ∀ x ∈ MTree.digests0 d c', x ∈ MTree.digests0 (d + 1) m :=
+      fun c' hc' x hx => List.mem_flatMap.mpr ⟨c', hc', hx⟩
+    have hQinC : ∀ c' ∈ m.children, mfi_Qin T D d c' :=
+      fun c' hc' => ⟨hm.2.2.2.2.1 c' hc', fun x hx => hdig x (hsubd c' hc' x hx)⟩
+    refine ⟨?_, ?_, hm.2.1, hQinC, child, hci, mfi_rootFlag_false d child (hQinC child hmem).1, ?_, ?_⟩
+    · intro hd hhd
+      rw [hm.2.1] at hhd
+      obtain ⟨c', hc', rfl⟩ := List.mem_map.mp hhd
+      rw [hm.2.2.2.2.2.2.1 c' hc']
+      exact mfi_headD_lt _ (hQinC c' hc').2
+    · have hsz : m.hdr.size = 12 + 18 * m.children.length := hm.2.2.1
+      have hl : m.childHdrs.length = m.children.length := by rw [hm.2.1, List.length_map]
+      have hb := map_legal_bounds hT
+      rw [hl]
+      rw [map_maxThr_eq] at hle
+      omega
+    · exact mfi_path hT hc hk hv hhk P d false child c (hQinC child hmem).1 (hQinC child hmem).2
+        (by rw [hm.2.2.2.2.2.1 child hmem]; exact haddr) (mfi_inl_false d child (hQinC child hmem).1)
+        (fun sl hsl => hP sl (List.mem_flatMap.mpr ⟨child, hmem, hsl⟩))
+    · intro ks old child' c1 hq
+      exact (mfi_set_MQ hT hc hk hv hhk d child child' ks old c c1 (hQinC child hmem) hq).size_lt hT
+
 end
 
 end
